@@ -10,10 +10,12 @@ HH=$(cat "$VERIF"/harness/*.cpp "$VERIF"/harness/*.h | sha256sum | cut -c1-12)
 EXE="$LIBDIR/$NAME-$HH"
 EXTRA=""
 case "$NAME" in
-  sim|simtls|sched) SRC="$VERIF/harness/$NAME.cpp $VERIF/harness/vos.cpp" ;;
+  simtls) SRC="$VERIF/harness/sim.cpp $VERIF/harness/fakessl.cpp $VERIF/harness/vos.cpp" ;;
+  sim|sched) SRC="$VERIF/harness/$NAME.cpp $VERIF/harness/vos.cpp" ;;
   *) SRC="$VERIF/harness/$NAME.cpp" ;;
 esac
 case "$FLAVOUR" in tls*) EXTRA="-lssl -lcrypto" ;; esac
+case "$NAME" in simtls) EXTRA="" ;; esac     # the scripted engine of fakessl.cpp stands in for libssl
 case "$NAME" in addr) EXTRA="$EXTRA -ldl" ;; esac
 if [ ! -x "$EXE" ]; then
   exec 9>"$LIBDIR/.lock-$NAME"; flock 9
